@@ -327,18 +327,15 @@ func getShallowCommits(st storage.Storer, heads []plumbing.Hash, depth int, upd 
 	for commit != nil || i < len(heads) || len(stack) > 0 {
 		if commit == nil {
 			if i < len(heads) {
-				obj, err := st.EncodedObject(plumbing.CommitObject, heads[i])
+				// A want may be an annotated tag: like git, count the depth
+				// from the commit it peels to.
+				c, ok := peelToCommit(st, heads[i])
 				i++
-				if err != nil {
+				if !ok {
 					continue
 				}
 
-				commit, err = object.DecodeCommit(st, obj)
-				if err != nil {
-					commit = nil
-					continue
-				}
-
+				commit = c
 				depths[commit] = 0
 				curDepth = 0
 			} else if len(stack) > 0 {
